@@ -49,7 +49,8 @@ def child_of(p):
     name = None
     cur = None
     for e in p.events:
-        if e[0] == "assign" and e[2][0] == "unpack" and e[2][2] == 1 and e[2][1][0] == "elem" and T.is_call_to(e[2][1][1], f"{MOD}._level"):
+        if e[0] == "assign" and e[2][0] == "unpack" and e[2][2] == 1 and e[2][1][0] == "elem" and T.is_call_to(e[2][1][1], f"{MOD}._level") and name in (None, e[1]):
+            # (the loop variable; a local of a helper read in place that is given the same value is not it)
             name, cur = e[1], e[2]
         elif e[0] == "assign" and name is not None and e[1] == name:
             cur = e[2]  # the member was normalised in place (e.g. a reference evaluated)
